@@ -1337,7 +1337,9 @@ func decodeDataPayloadToMACCommands(uplink bool, payloads []Payload) ([]Payload,
 			plLen = s
 		}
 
-		if len(dataPL.Bytes[i:]) < plLen+1 {
+		// len(dataPL.Bytes[i:]) >= 1 here; written without plLen+1, which overflows for a
+		// proprietary mac-command registered with a size of math.MaxInt
+		if len(dataPL.Bytes[i:])-1 < plLen {
 			return nil, errors.New("lorawan: not enough remaining bytes")
 		}
 
